@@ -424,7 +424,8 @@ def run(C, R):
                 continue
             tr = fn.get('impl_trait') or ''
             # a private helper that only the handles' Clone / Drop impls call is part of them
-            callers = [F.fn(c) or {} for c, _ in CG.callers_of(fn['path'])]
+            from rl import lift_private_callers as _lift
+            callers = [F.fn(c) or {} for c in _lift(F, CG, fn['path'])]
             helper = bool(callers) and all((c.get('impl_trait') or '').endswith(('clone::Clone', 'ops::Drop'))
                                            and '::shared::' in c.get('path', '') for c in callers)
             if tr.endswith('clone::Clone') or tr.endswith('ops::Drop') or helper:
